@@ -125,7 +125,7 @@ def make_eval(exe):
                     env["LBZIP2_VERIF_SCHED"] = ss
                 if case["ing"]:
                     env["LBZIP2_VERIF_IN_GRANUL"] = str(max(case["ing"], (len(data) // 6000 + 4) // 4 * 4))
-                r = core.run([exe, "-d", "-n", str(case["n"])], env=env, stdin_file=inp, timeout=300)
+                r = core.run([exe, "-d", "-n", str(case["n"])], env=env, stdin_file=inp, timeout=120)
                 labels, tinfo = c11.parse_trace(tr)
                 if si == 0 and tinfo["steps"]:
                     est = tinfo["steps"]
